@@ -5,7 +5,7 @@ import common
 import impl
 import treeops as T
 import c01
-from treeops import Real, F_ALL
+from treeops import Real, F_ALL, F_DEFAULT
 from impl import Document, TagNode, TextNode, no_gc, altered_default_filters
 
 REQ = T.REQ.replace("CTree COps CEncode", "CTree COps CEncode Clone")
@@ -113,13 +113,15 @@ def run_case(ctx, rng, h):
     live = c01.live_nodes(w)
     case = {"docs": docs_xml, "initial_world": w0, "events": [e["ev"] for e in rec["events"]],
             "classes": rec.get("classes", [])}
+    clone_filter = F_DEFAULT if rng.random() < 0.7 else F_ALL
     with altered_default_filters():
         try:
-            if rng.random() < 0.15:
+            if rng.random() < 0.2:
                 di = rng.randrange(len(real.docs))
                 d = real.docs[di]
                 before = real.view_world()
-                c = d.clone()
+                with T.filt_ctx(clone_filter):
+                    c = d.clone()
                 real.docs.append(c)
                 w = real.dump_world()
                 ren = []
@@ -136,16 +138,17 @@ def run_case(ctx, rng, h):
                 clone_ids = set()
                 for x in cl[0] + [cl[1]] + cl[2]:
                     ids_of_view(x, clone_ids)
-                kind = "document"
+                kind = "document" if all(clone_filter) else "default-filters:document"
             else:
                 x = rng.choice(sorted(live))
                 deep = rng.random() < 0.8
                 node = real.objs[x]
                 ov = real.view(node)
-                c = node.clone(deep=deep)
+                with T.filt_ctx(clone_filter):      # cloning under the caller's (normal default) filters
+                    c = node.clone(deep=deep)
                 real.nid(c)
                 cv = real.view(c)
-                kind = "%s/%s/%s" % (live[x][0], {True: "attached", False: "parentless"}.get(live[x][1], live[x][1]),
+                kind = "%s%s/%s/%s" % ("" if all(clone_filter) else "default-filters:", live[x][0], {True: "attached", False: "parentless"}.get(live[x][1], live[x][1]),
                                      "deep" if deep else "shallow")
                 if c.parent is not None or c._fetch_following_sibling() is not None or c.fetch_preceding_sibling() is not None:
                     rec["fail"] = ("the clone is not a parentless node without siblings", dict(case, node=x))
